@@ -362,21 +362,24 @@ def flatten7(result, shape=()):
 def compare7(got, ref, floors, rel=1e-10):
     """Seven observed floats against seven reference floats.  A value passes when it is within *rel*
     relative or within its absolute floor.  NaN or inf observed never passes (the reference is finite).
-    Returns [(index, name, got, want, relative error)] of the failures and the worst relative error
-    among the values that were judged by the relative test."""
+    Returns (failures, worst, floor_only):
+      failures   [(index, name, got, want, relative error)]
+      worst      largest relative error among the values that passed the relative test
+      floor_only number of values that passed only through their absolute floor (relative error > rel)"""
     bad = []
     worst = 0.0
+    floor_only = 0
     for i in range(7):
         g, r = float(got[i]), float(ref[i])
         if g != g or g in (math.inf, -math.inf):
             bad.append((i, NAMES[i], g, r, math.inf))
             continue
         d = abs(g - r)
-        if d <= floors[i]:
-            continue
-        relerr = d / abs(r) if r != 0 else math.inf
-        if relerr > rel:
-            bad.append((i, NAMES[i], g, r, relerr))
-        else:
+        relerr = d / abs(r) if r != 0 else (0.0 if d == 0 else math.inf)
+        if relerr <= rel:
             worst = max(worst, relerr)
-    return bad, worst
+        elif d <= floors[i]:
+            floor_only += 1
+        else:
+            bad.append((i, NAMES[i], g, r, relerr))
+    return bad, worst, floor_only
